@@ -141,6 +141,31 @@ def run(F, rep):
     # ------------------------------------------------------------ A-VAR
     _varint(F, rep)
     _count_bounds(F, rep)
+    # (OPEN) the writer starts from an empty file: the reader finds the directory through the last 8 bytes of the file, so
+    # bytes of an older, longer file at the same path must not survive behind the new archive
+    nop = 0
+    for f in F.funcs.values():
+        if f.crate != "ragc_common" or f.kind == "promoted" or f.d.get("test"):
+            continue
+        exo = None
+        for bi, t in f.calls():
+            if t.get("indirect"):
+                continue
+            if t["callee"].endswith("fs::File::create") or t["callee"].endswith("fs::File::create_new"):
+                nop += 1
+                rep.ob("C13-OPEN", "%s creates its output with File::create (truncates an existing file)" % f.key.split("::", 1)[-1], True, how="trivial",
+                       site=site_of(f, t), key="C13-OPEN | %s | File::create" % f.key)
+            elif t["callee"].endswith("fs::OpenOptions::open"):
+                exo = exo or Exprs(f)
+                chain = fmt(exo.operand(t["args"][0]))
+                if not (re.search(r"OpenOptions::(write|create)\(.*?, 1\)", chain) or "OpenOptions::write" in chain or "OpenOptions::append" in chain):
+                    continue
+                nop += 1
+                safe = re.search(r"OpenOptions::(truncate|create_new)\(", chain) is not None
+                rep.ob("C13-OPEN", "a file opened for writing in %s starts empty (truncate / create_new)" % f.key.split("::", 1)[-1], safe,
+                       detail="builder chain: %s%s" % (chain[:160], "" if safe else "; an older, longer file at the path keeps its tail, and the reader takes the directory from the last 8 bytes"),
+                       site=site_of(f, t), key="C13-OPEN | %s | open for writing" % f.key)
+    rep.floor("C13-OPEN", nop, 1, "places where the container opens a file for writing")
     from rules import c12
     c12.io_rule(F, rep, "C13-IO")        # the container's reads and writes are all-or-error calls
 
